@@ -18,6 +18,8 @@ pub struct Directed {
     pub compress: bool,
     pub synced: Vec<usize>,
     pub unsynced: Vec<usize>,
+    /// random-access read of this item between the synced and the unsynced appends
+    pub read_between: Option<u64>,
 }
 
 pub fn directed_cases() -> Vec<Directed> {
@@ -27,6 +29,7 @@ pub fn directed_cases() -> Vec<Directed> {
         compress,
         synced: synced.to_vec(),
         unsynced: unsynced.to_vec(),
+        read_between: None,
     };
     vec![
         d("one_full_file_then_1_byte", 40, false, &[40], &[1]),
@@ -49,6 +52,10 @@ pub fn directed_cases() -> Vec<Directed> {
         d("oversize_first_then_zero_len", 40, false, &[], &[41, 0]),
         d("every_item_rolls", 40, false, &[40, 40], &[40, 40]),
         d("three_files_in_one_burst", 40, false, &[30], &[30, 30, 30]),
+        Directed {
+            read_between: Some(1),
+            ..d("read_first_item_then_append", 100, false, &[7, 7], &[7])
+        },
     ]
 }
 
@@ -778,6 +785,13 @@ pub fn run_directed(cfg: &Cfg, case: &Directed, dirs: &Dirs, st: &mut Stats) {
         h.append(&mut ff, item, "files.op.append");
         if h.dead {
             return;
+        }
+    }
+    if let Some(i) = case.read_between {
+        h.random_reads = true;
+        h.ops.push(format!("retrieve({i})"));
+        if let Err(d) = read_one(&mut ff, &h.model, i) {
+            return h.fail("retrieve", d);
         }
     }
     h.crash_phase(&mut ff, &mut rng, Some(&case.unsynced));
